@@ -28,6 +28,22 @@ CLAIMED = {
     ),
 }
 
+CLAIMED["C01"] = dict(
+    text="Coq theorems over Model/SctpSend.v + Model/SctpRecv.v: fragmentation is lossless with B/E flags and "
+         "consecutive TSNs; for EVERY arrival list over the sent chunks (any loss/duplication/reordering, any TSN "
+         "origin incl. wrap, plus arbitrary FORWARD-TSN) every delivered message is (stream, ppid, data) of a sent "
+         "message; a TSN is accepted at most once and the reassembly assertion is unreachable (window < 2^31); "
+         "str/bytes/empty values round-trip through four distinct PPIDs. PARTIAL: the 'prefix per ordered channel' "
+         "step (delivered stream sequence numbers are consecutive) is not yet a theorem - it is observed by the "
+         "implementation oracle on receiver-level arrival lists and two-endpoint fault schedules.",
+    design_ref="5 / C01",
+    note="Network faults are abstracted as an arbitrary arrival list over sent chunks; SACK-path faults cannot "
+         "influence deliveries. Receiver model tied to _receive_chunk/_send_sack by differential runs (deliveries, "
+         "SACK, state after every event); two real endpoints under scripted fault schedules with virtual clock as "
+         "oracle.",
+    technique="Coq proof (induction over arrival lists, invariants) + model/implementation correspondence",
+)
+
 NOT_YET = "check not built yet in this development snapshot (planned, see DESIGN.md section 10)"
 
 
